@@ -53,7 +53,8 @@ BOUNDED = {
         where="openapi_python_client/parser/properties/enum_property.py",
         statement="two document items whose derived class names coincide are either the same enum (same values in the same "
                   "order) or a diagnostic is issued; never one silently replacing the other",
-        bound="two schemas (inline enum/inline enum over 5 value lists, model/inline enum, model/model), both orders"),
+        bound="two schemas (inline enum/inline enum over 5 value lists, model/inline enum, model/model), both orders; nested "
+              "inline object under a property name that adds nothing to the class name (4 names x 2 containers)"),
     "enum_default": dict(
         unit=P + "properties: convert_value of EnumProperty / LiteralEnumProperty / ConstProperty / UnionProperty (+ templates)",
         where="openapi_python_client/parser/properties/enum_property.py",
